@@ -289,35 +289,39 @@ func (ma *ModuleAnalyzer) collectModuleImports(ast *parser.Node, filePath string
 			// Handle "import module" statements
 			isTypeChecking := ma.isInTypeCheckingBlock(node)
 
-			if len(node.Children) > 0 {
-				for _, child := range node.Children {
-					if child.Type == parser.NodeAlias {
-						imp := &ImportInfo{
-							Statement:      fmt.Sprintf("import %s", child.Name),
-							ImportedNames:  []string{child.Name},
-							IsRelative:     false,
-							Line:           node.Location.StartLine,
-							IsTypeChecking: isTypeChecking,
-						}
-						if child.Value != nil {
-							if alias, ok := child.Value.(string); ok {
-								imp.Alias = alias
-							}
-						}
-						imports = append(imports, imp)
-					}
-				}
-			} else if len(node.Names) > 0 {
-				for _, name := range node.Names {
+			// Aliased modules have an Alias child; the parser lists every module of the
+			// statement in Names as well, so "import a, b as bb, c" must yield all three
+			aliased := make(map[string]bool)
+			for _, child := range node.Children {
+				if child.Type == parser.NodeAlias {
 					imp := &ImportInfo{
-						Statement:      fmt.Sprintf("import %s", name),
-						ImportedNames:  []string{name},
+						Statement:      fmt.Sprintf("import %s", child.Name),
+						ImportedNames:  []string{child.Name},
 						IsRelative:     false,
 						Line:           node.Location.StartLine,
 						IsTypeChecking: isTypeChecking,
 					}
+					if child.Value != nil {
+						if alias, ok := child.Value.(string); ok {
+							imp.Alias = alias
+						}
+					}
 					imports = append(imports, imp)
+					aliased[child.Name] = true
 				}
+			}
+			for _, name := range node.Names {
+				if aliased[name] {
+					continue
+				}
+				imp := &ImportInfo{
+					Statement:      fmt.Sprintf("import %s", name),
+					ImportedNames:  []string{name},
+					IsRelative:     false,
+					Line:           node.Location.StartLine,
+					IsTypeChecking: isTypeChecking,
+				}
+				imports = append(imports, imp)
 			}
 
 		case parser.NodeImportFrom:
